@@ -569,12 +569,12 @@ def cost_failure_class(v, ivs, clip):
     lower = [iv for iv in ivs if iv[0] == -inf]
     finite_hi = [iv[1] for iv in ivs if iv[1] != inf]
     finite_lo = [iv[0] for iv in ivs if iv[0] != -inf]
-    if upper and v < upper[0][0] and all(v > h for h in finite_hi):
-        return 'below-start-of-upper-interval'
     if clip and not upper and all(v > h for h in finite_hi):
         return 'clip-dropped-upper-region'
     if clip and not lower and all(v < l for l in finite_lo):
         return 'clip-dropped-lower-region'
+    if upper and v < upper[0][0] and all(v > h for h in finite_hi):
+        return 'below-start-of-upper-interval'
     return 'other'
 
 
@@ -924,22 +924,8 @@ def _kf_cost_zero_width(case, sub, d):
     return sub == 'C11.cost_idempotent' and bool(d.get('again_is_result_without_zero_width'))
 
 
-def _kf_cost_upper(case, sub, d):
-    return sub == 'C11.cost_valid' and d.get('cls') == 'below-start-of-upper-interval'
-
-
 def _kf_cost_clip(case, sub, d):
     return sub == 'C11.cost_valid' and bool(d.get('clip')) and d.get('cls') in ('clip-dropped-upper-region', 'clip-dropped-lower-region')
-
-
-def _kf_list_target(case, sub, d):
-    if not isinstance(case.get('target'), list):
-        return False
-    if sub in ('C11.relation_calls', 'C11.final_solution'):
-        return d.get('cls') == 'list-target-misaligned'
-    # before impose_at paired indices with targets (0b5ee99) the same call raised instead
-    return (sub == 'C11.no_crash' and d.get('exception') == 'ValueError'
-            and 'constraints.py' in d.get('at', '') and 'shape mismatch' in d.get('message', ''))
 
 
 def _kf_offset_true(case, sub, d):
@@ -969,16 +955,9 @@ KNOWN = {
     # collapse_cost(mask=own result): zero-width intervals (a,a) are lost by tools._interval_intersection (l < h), so the
     # 'results == mask' test fails and the same collapse is reported again (without those intervals)
     'C11-cost-zero-width-interval-reported-again': _kf_cost_zero_width,
-    # collapse_cost: the start of the last interval is computed as par[w] + d (parameter value + number of samples)
-    # instead of par[w + d] (collapse.py:318), so cheap samples right after the last expensive stretch fall outside
-    'C11-cost-upper-interval-value-plus-count': _kf_cost_upper,
     # collapse_cost(clip=True): if the extreme sample of a parameter is expensive, the whole region between the last
     # expensive stretch and that end is dropped, including cheap samples (collapse.py:310-311)
     'C11-cost-clip-drops-edge-region': _kf_cost_clip,
-    # CollapseAt(target=<list of x length>): Collapse() builds impose_at(collapsed_indices, whole_list), which pairs the
-    # k-th collapsed index with target[k] instead of target[index] (abstract_solver.py:835): the parameter is fixed at
-    # another parameter's target (a shape-mismatch ValueError before 0b5ee99) unless every index collapsed at once
-    'C11-collapse-at-list-target-misapplied': _kf_list_target,
     # CollapseAs(offset=True): Collapse() passes the boolean on as the numeric offset, x[j] = x[i] + True (accumulating
     # along chains), whatever distance was detected; parameters fixed by CollapseAt in the same call are moved too
     'C11-collapse-as-offset-true-imposes-plus-one': _kf_offset_true,
